@@ -354,7 +354,9 @@ def check_api(case):
   consts = {}
   for i, c in enumerate(case['consts']):
     # falsy values too: a constant that is None / 0 / '' is still a constant
-    obj = [None, ('const', c, i), 0, ('const', c, i), ''][i % 5]
+    # (and several constants with ==-equal values -- 0, False, 0.0 -- : a spelling that matches two
+    # of them is ambiguous all the same)
+    obj = [None, 0, False, ('const', c, i), 0.0, ''][i % 6]
     try:
       gin.constant(c, obj)
       require(not m_match(sorted(consts), c), 'duplicate-constant-accepted',
